@@ -22,6 +22,8 @@
      [None]; Proofs/EditProofsTrav.v shows [trav_fuel] always suffices. *)
 From LV Require Import Base.Bytes Base.Sx Model.Obj Model.DocQ Model.PageTree Model.Traverse Gen.Consts
   Gen.Filters Model.A85 Model.Png Model.StreamFilt Model.Writer Model.Renumber.
+(* qualified use only (Outline.x, SaveState.x): both files reuse names of this one *)
+From LV Require Model.Outline Model.SaveState.
 
 Definition I64_MIN : Z := (-9223372036854775808)%Z.
 
@@ -59,7 +61,9 @@ Inductive op :=
 | GetOrCreateResources (page : oid)
 | AddXObject (page : oid) (name : bytes) (x : oid)
 | AddGraphicsState (page : oid) (name : bytes) (g : oid)
-| GetPageContent (page : oid).      (* observation only: Document::get_page_content *)
+| GetPageContent (page : oid)       (* observation only: Document::get_page_content *)
+| Save (stream : bool).             (* Document::save_to with reference_table.cross_reference_type = Table / Stream:
+                                       only its effect on the Document is modelled (max_id, trailer); bytes are C01's *)
 
 Inductive out :=
 | OUnit
@@ -72,7 +76,9 @@ Inductive out :=
 | OOkObj (o : obj)                  (* Ok(&mut Object): the object the reference points at *)
 | OBytes (r : option bytes)         (* Result<Vec<u8>> *)
 | OHang                             (* the Rust loop does not terminate (cyclic Parent chain) *)
-| OFuel.                            (* the model ran out of fuel: excluded by the theorems *)
+| OFuel                             (* the model ran out of fuel: excluded by the theorems *)
+| ONum (n : N)                      (* add_bookmark: the bookmark id *)
+| ORoot (r : option oid).           (* build_outline: Option<ObjectId> *)
 
 Definition with_max (d : doc) (mx : N) : doc :=
   {| d_version := d_version d; d_binary_mark := d_binary_mark d; d_trailer := d_trailer d;
@@ -526,6 +532,38 @@ Definition renumber (d : doc) : doc * out :=
   | OutOfFuel => (d, OFuel)
   end.
 
+(* ---------------- writer.rs: what save_internal does to the Document (Model/SaveState.v, C19) ---------------- *)
+(*   let mut xref = Xref::new(self.max_id + 1, ..)                  -- checked u32 addition
+     writeln!("%PDF-.."); write_binary_mark(..)?                    -- Err(InvalidData) unless every byte is >= 128
+     for (id, object) in &self.objects { unless type_name is ObjStm / XRef / Linearized: write, xref.insert(id.0, ..) }
+     Table : write_xref; write_trailer            -> trailer.set("Size", max_id + 1)
+     Stream: write_cross_reference_stream         -> max_id += 1; trailer.set(Type, Size, W, Index, -Filter, Length)
+   A Vec<u8> sink never fails.  In the Stream case `self.max_id + 1` (for Size) is a second checked addition AFTER
+   `self.max_id += 1` and `trailer.set("Type", XRef)`: at max_id = u32::MAX - 1 it panics with both already done. *)
+Definition K_ObjStm := Eval cbv in bs "ObjStm".
+Definition save_skipped (o : obj) : bool :=
+  match (match o with ODict d => get_type d | OStream d _ => get_type d | _ => None end) with
+  | Some n => bytes_eqb n K_ObjStm || bytes_eqb n SaveState.K_XRef || bytes_eqb n K_Linearized
+  | None => false
+  end.
+Definition written_numbers (m : objmap) : list N :=
+  map (fun io => fst (fst io)) (filter (fun io => negb (save_skipped (snd io))) m).
+Definition with_state (d : doc) (st : SaveState.sstate) : doc :=
+  {| d_version := d_version d; d_binary_mark := d_binary_mark d; d_trailer := SaveState.s_trailer st;
+     d_objects := d_objects d; d_max_id := SaveState.s_max_id st |}.
+Definition state_of (d : doc) : SaveState.sstate :=
+  {| SaveState.s_max_id := d_max_id d; SaveState.s_trailer := d_trailer d |}.
+
+Definition save_effect (stream : bool) (d : doc) : doc * out :=
+  if (U32_MAX <=? d_max_id d)%N then (d, OPanic)
+  else if negb (forallb (fun b => (128 <=? N_of_byte b)%N) (d_binary_mark d)) then (d, OErr)
+  else if stream then
+    if (U32_MAX <=? d_max_id d + 1)%N then
+      (with_state d {| SaveState.s_max_id := (d_max_id d + 1)%N;
+                       SaveState.s_trailer := dict_set (d_trailer d) K_Type (OName SaveState.K_XRef) |}, OPanic)
+    else (with_state d (SaveState.mutate SaveState.XStream (written_numbers (d_objects d)) (state_of d)), OOk)
+  else (with_state d (SaveState.mutate SaveState.XTable [] (state_of d)), OOk).
+
 (* ------------------------------------------------------------------------------------------ *)
 Definition step (O : oracles) (d : doc) (o : op) : doc * out :=
   match o with
@@ -561,8 +599,63 @@ Definition step (O : oracles) (d : doc) (o : op) : doc * out :=
   | AddGraphicsState page nm g => add_graphics_state d page nm g
   | GetPageContent page =>
     (d, match get_page_content O (d_objects d) page with Some b => OBytes (Some b) | None => OPanic end)
+  | Save stream => save_effect stream d
   end.
 
 (* the state after a program, and the trace of outputs *)
 Definition run_ops (O : oracles) (d : doc) (ops : list op) : doc :=
   fold_left (fun d o => fst (step O d o)) ops d.
+
+(* ------------------------------------------------------------------------------------------ *)
+(* The whole Document: the object graph above plus the bookmark fields (max_bookmark_id, bookmarks,
+   bookmark_table).  [state] is Model/Outline.v's record (C17); add_bookmark and build_outline are its
+   functions, used as they are.  Every operation of [op] acts on the base document and leaves the bookmark
+   fields alone, except renumber_objects, which renames the target page of every table entry
+   (renumber_bookmarks_with: Model/Renumber.v, C10 -- its table keeps only children and page, so the result
+   is read back entry by entry). *)
+Definition state := Outline.bdoc.
+
+Inductive sop :=
+| SDoc (o : op)
+| SAddBookmark (title : Outline.ustring) (format : N) (color : bytes * bytes * bytes) (page : oid) (parent : option N)
+                                    (* add_bookmark(Bookmark::new(title, color, format, page), parent) *)
+| SBuildOutline.                    (* build_outline *)
+
+Definition rtable (t : Outline.btable) : bmtable :=
+  map (fun kb => (fst kb, {| bm_children := Outline.bm_children (snd kb); bm_page := Outline.bm_page (snd kb) |})) t.
+Definition rdoc_of_state (s : state) : rdoc :=
+  {| base := Outline.base s; max_bookmark_id := Outline.max_bookmark_id s; bookmarks := Outline.bookmarks s;
+     bm_table := rtable (Outline.bookmark_table s) |}.
+Definition pages_back (t : Outline.btable) (rt : bmtable) : Outline.btable :=
+  map (fun kb => (fst kb, match bm_get rt (fst kb) with
+                          | Some rb => Outline.set_page (snd kb) (bm_page rb)
+                          | None => snd kb
+                          end)) t.
+
+Definition renumber_state (s : state) : state * out :=
+  match renumber_objects (rdoc_of_state s) with
+  | Done rd => ({| Outline.base := base rd; Outline.max_bookmark_id := Outline.max_bookmark_id s;
+                   Outline.bookmarks := Outline.bookmarks s;
+                   Outline.bookmark_table := pages_back (Outline.bookmark_table s) (bm_table rd) |}, OUnit)
+  | Renumber.Panic => (s, OPanic)
+  | StackOverflow => (s, OPanic)
+  | OutOfFuel => (s, OFuel)
+  end.
+
+Definition sstep (O : oracles) (s : state) (o : sop) : state * out :=
+  match o with
+  | SDoc RenumberObjects => renumber_state s
+  | SDoc x => let '(d', r) := step O (Outline.base s) x in (Outline.with_base s d', r)
+  | SAddBookmark title format color page parent =>
+    let '(s', id) := Outline.add_bookmark s (Outline.new_bookmark title color format page) parent in (s', ONum id)
+  | SBuildOutline =>
+    (* the Rust recursion has no fuel; default_fuel = |table| + 1 exceeds the depth of every table add_bookmark builds *)
+    match Outline.build_outline (Outline.default_fuel s) s with
+    | Outline.OOk (r, s') => (s', ORoot r)
+    | Outline.OPanic => (s, OPanic)        (* before self.objects / self.max_id are written *)
+    | Outline.OFuel => (s, OFuel)
+    end
+  end.
+
+Definition srun_ops (O : oracles) (s : state) (ops : list sop) : state :=
+  fold_left (fun s o => fst (sstep O s o)) ops s.
